@@ -53,6 +53,7 @@ def patch_worker():
 # =====================================================================================================
 
 class MotorPWM:
+    _pycv_instance_of = ("MotorBase", "DCMotor", "RotatingObject", "MechanicalObject")
     """stand-in for the motor behind PWMControl: `pwm` follows the DCMotor.pwm setter contract (contracts/motor.py)"""
 
     def __init__(self, pwm0):
@@ -74,11 +75,14 @@ class MotorPWM:
 
 
 class PTStandIn:
+    _pycv_instance_of = ("Powertrain",)
+
     def __init__(self, motor):
         self.elements = (motor,)
 
 
 class AbsRule:
+    _pycv_instance_of = ("RuleBase",)
     """a rule: apply() returns None or a number and modifies nothing (contract proved per rule class below)"""
 
     def __init__(self, k, log, c):
@@ -117,11 +121,14 @@ def job_apply_rules(m):
         if not c.concrete:
             c.assume(z3.And(pwm0.term >= -1, pwm0.term <= 1))
         motor = MotorPWM(pwm0)
-        ctl = object.__new__(PC.PWMControl)
+        ctl = construct(O, PC.PWMControl, ("C14",), powertrain=PTStandIn(motor))
         log = []
         rules = [AbsRule(k, log, c) for k in range(m)]
-        ctl._PWMControl__rules = list(rules)
-        ctl._PWMControl__powertrain = PTStandIn(motor)
+        for ru in rules:
+            st, r = H.call(ctl.add_rule, ru)
+            if st != "ok":
+                O.fail("add_rule:accepts-a-rule", props=("C14",), note=repr(r))
+                return
         st, r = H.call(ctl.apply_rules)
         appl = [ru for ru in rules if ru.applicable]
         O.prove("rules:every-rule-consulted-exactly-once-in-order", log == list(range(m)), props=("C14",))
@@ -155,11 +162,11 @@ def job_add_rule():
         if c.concrete:
             return
         import gearpy.motor_control.pwm_control as PC
-        ctl = object.__new__(PC.PWMControl)
-        ctl._PWMControl__rules = []
+        ctl = construct(O, PC.PWMControl, ("C14",), powertrain=PTStandIn(MotorPWM(c.real("pwm0"))))
+        O.prove("ctor[PWMControl]:starts-without-rules", list(ctl.rules) == [], props=("C14",))
         r1 = AbsRule(0, [], c)
         st, r = H.call(ctl.add_rule, r1)
-        O.prove("add_rule:appends-the-rule", st == "ok" and ctl._PWMControl__rules == [r1] or ctl.rules[-1] is r1, props=("C14",))
+        O.prove("add_rule:appends-the-rule", st == "ok" and len(ctl.rules) == 1 and ctl.rules[-1] is r1, props=("C14",))
         st, r = H.call(ctl.add_rule, object())
         O.prove("add_rule:rejects-a-non-rule-and-leaves-the-list", st == "raise" and isinstance(r, TypeError) and len(ctl.rules) == 1,
                 props=("C14",))
@@ -176,6 +183,26 @@ class Target:
 
     def __init__(self, **kw):
         self.__dict__.update(kw)
+
+
+def _declared_isinstance(obj, cls):
+    """harness stand-ins declare which library classes they stand for (so that the REAL constructors accept them)"""
+    names = getattr(type(obj), "_pycv_instance_of", None)
+    if names is None:
+        return None
+    return any(getattr(t, "__name__", "") in names or t is object for t in sym._unpack_types(cls))
+
+
+sym.ISINSTANCE_HOOKS.insert(0, _declared_isinstance)
+
+
+def construct(O, cls, props, *a, **kw):
+    """objects under contract are built by their REAL constructors (what `__init__` stores is what `apply` reads)"""
+    st, r = H.call(cls, *a, **kw)
+    if st != "ok":
+        O.fail(f"ctor[{cls.__name__}]:accepts-valid-arguments", props=props, note=repr(r))
+        raise sym.PathEnd()
+    return r
 
 
 def _target_isinstance(obj, cls):
@@ -240,10 +267,10 @@ def job_constant_pwm():
         now = H.mkq(c, "Time", "t")
         val = c.real("pwm_value")
         tm = TM.Timer(start_time=start, duration=dur)
-        rule = object.__new__(CP.ConstantPWM)
-        rule._ConstantPWM__timer = tm
-        rule._ConstantPWM__powertrain = Target(time=[H.mkq(c, "Time", "t_old"), now])
-        rule._ConstantPWM__target_pwm_value = val
+        if not c.concrete:
+            c.assume(z3.And(val.term >= -1, val.term <= 1))        # constructor precondition (a duty cycle)
+        rule = construct(O, CP.ConstantPWM, ("C15",), timer=tm, powertrain=Target(time=[H.mkq(c, "Time", "t_old"), now], _classes=("Powertrain",)),
+                         target_pwm_value=val)
         before = dict(rule.__dict__)
         st, r = H.call(rule.apply)
         if st == "raise":
@@ -305,7 +332,7 @@ def eta(env, n, classes=AM.HIER["SpurGear"]):
     return out
 
 
-def job_reach(n):
+def job_reach(n, second_call=False):
     def body(c, O):
         if c.concrete:
             return
@@ -317,17 +344,24 @@ def job_reach(n):
         target = H.mkq(c, "AngularPosition", "theta_target")
         brake = H.mkq(c, "Angle", "theta_brake")
         c.assume(brake.si() > 0)
-        enc = object.__new__(ENC.AbsoluteRotaryEncoder)
-        enc._AbsoluteRotaryEncoder__target = Target(angular_position=pos)
-        rule = object.__new__(RP.ReachAngularPosition)
-        rule._ReachAngularPosition__encoder = enc
-        rule._ReachAngularPosition__powertrain = AM.AbsPowertrain(env)
-        rule._ReachAngularPosition__target_angular_position = target
-        rule._ReachAngularPosition__braking_angle = brake
-        c.assume(z3.Implies(z3.Not(z3.Select(st["Tl_none"], 0)), env.fac("Torque", z3.Select(st["Tl_unit"], 0)) > 0))
+        tgt = Target(angular_position=pos)
+        enc = construct(O, ENC.AbsoluteRotaryEncoder, ("C15",), target=tgt)
+        rule = construct(O, RP.ReachAngularPosition, ("C15",), encoder=enc, powertrain=AM.AbsPowertrain(env),
+                         target_angular_position=target, braking_angle=brake)
         # efficiencies in (0, 1] (property C02's quantifier)
         for j in range(1, n):
             c.assume(z3.Select(st["eff"], j) > 0)
+        c.assume(z3.Implies(z3.Not(z3.Select(st["Tl_none"], 0)), env.fac("Torque", z3.Select(st["Tl_unit"], 0)) > 0))
+        if second_call:
+            # the rule is consulted at every instant: its answer must follow the state of THAT instant.  An earlier call in
+            # another state (other encoder reading, other motor load) must not influence this one.
+            stt0, r0 = H.call(rule.apply)
+            if stt0 == "raise":
+                raise sym.PathEnd()                      # first-call behaviour is the other job's subject
+            pos = H.mkq(c, "AngularPosition", "theta_at_the_second_call")
+            tgt.angular_position = pos
+            st.havoc(("Tl",), tag="second_call")
+            c.assume(z3.Implies(z3.Not(z3.Select(st["Tl_none"], 0)), env.fac("Torque", z3.Select(st["Tl_unit"], 0)) > 0))
         old = st.snapshot()
         stt, r = H.call(rule.apply)
         TH, TT, TB = pos.si(), target.si(), brake.si()
@@ -356,7 +390,7 @@ def job_reach(n):
             band = tol_band("AngularPosition", pos.unit, target.unit, brake.unit, "rad")
             O.prove("Reach:silent-only-while-theta<theta_s(beyond-tolerance)", TH <= ts + band, props=("C15",))
         O.prove("Reach:modifies-nothing", not st.changed_since(old), props=("C15", "C14"))
-    return Job(f"control.ReachAngularPosition.apply[n={n}]", body, ("C15", "C14"),
+    return Job(f"control.ReachAngularPosition.apply[n={n}{',second-call-in-another-state' if second_call else ''}]", body, ("C15", "C14"),
                functions=["gearpy.motor_control.rules.reach_angular_position.ReachAngularPosition.apply",
                           "gearpy.motor_control.rules.utils._compute_static_error",
                           "gearpy.sensors.absolute_rotary_encoder.AbsoluteRotaryEncoder.get_value"],
@@ -379,17 +413,12 @@ def job_start_limit_current():
         im = H.mkq(c, "Current", "imax")
         Tm = H.mkq(c, "Torque", "Tmax")
         c.assume(z3.And(w0.si() > 0, i0.si() >= 0, im.si() > 0, i0.si() < im.si(), ilim.si() > 0, Tm.si() > 0))
-        enc = object.__new__(ENC.AbsoluteRotaryEncoder)
-        enc._AbsoluteRotaryEncoder__target = Target(angular_position=pos)
-        tach = object.__new__(TA.Tachometer)
-        tach._Tachometer__target = Target(angular_speed=spd)
-        motor = Target(no_load_speed=w0, maximum_electric_current=im, no_load_electric_current=i0)
-        rule = object.__new__(SL.StartLimitCurrent)
-        rule._StartLimitCurrent__encoder = enc
-        rule._StartLimitCurrent__tachometer = tach
-        rule._StartLimitCurrent__motor = motor
-        rule._StartLimitCurrent__limit_electric_current = ilim
-        rule._StartLimitCurrent__target_angular_position = target
+        enc = construct(O, ENC.AbsoluteRotaryEncoder, ("C15",), target=Target(angular_position=pos))
+        tach = construct(O, TA.Tachometer, ("C15",), target=Target(angular_speed=spd))
+        motor = Target(no_load_speed=w0, maximum_electric_current=im, no_load_electric_current=i0, electric_current_is_computable=True,
+                       _classes=("DCMotor", "MotorBase", "RotatingObject"))
+        rule = construct(O, SL.StartLimitCurrent, ("C15",), encoder=enc, tachometer=tach, motor=motor, target_angular_position=target,
+                         limit_electric_current=ilim)
         stt, r = H.call(rule.apply)
         if stt == "raise":
             O.fail("StartLimitCurrent.apply:no-exception", props=("C15",), note=repr(r))
@@ -425,7 +454,7 @@ def job_start_limit_current():
 
 
 
-def job_start_proportional(n, load_recorded):
+def job_start_proportional(n, load_recorded, second_call=False):
     def body(c, O):
         if c.concrete:
             return
@@ -439,19 +468,25 @@ def job_start_proportional(n, load_recorded):
         mult = c.real("multiplier")
         given = c.real("pwm_min_given")
         c.assume(z3.And(mult.term > 1, given.term > 0, target.si() != 0))
-        enc = object.__new__(ENC.AbsoluteRotaryEncoder)
-        enc._AbsoluteRotaryEncoder__target = Target(angular_position=pos)
-        rule = object.__new__(SP.StartProportionalToAngularPosition)
-        P = "_StartProportionalToAngularPosition__"
-        rule.__dict__[P + "encoder"] = enc
-        rule.__dict__[P + "powertrain"] = AM.AbsPowertrain(env)
-        rule.__dict__[P + "target_angular_position"] = target
-        rule.__dict__[P + "pwm_min_multiplier"] = mult
-        rule.__dict__[P + "pwm_min"] = given
+        tgt = Target(angular_position=pos)
+        enc = construct(O, ENC.AbsoluteRotaryEncoder, ("C15",), target=tgt)
+        rule = construct(O, SP.StartProportionalToAngularPosition, ("C15",), encoder=enc, powertrain=AM.AbsPowertrain(env),
+                         target_angular_position=target, pwm_min_multiplier=mult, pwm_min=given)
         for j in range(1, n):
             c.assume(z3.Select(st["eff"], j) > 0)
         c.assume(z3.And(z3.Not(z3.Select(st["Tl_none"], 0)), env.fac("Torque", z3.Select(st["Tl_unit"], 0)) > 0))
         c.assume((z3.Select(st["hlen_Tl"], 0) > 0) == load_recorded)
+        if second_call:
+            # an earlier call in another state (other encoder reading, other current motor load) must not influence this one
+            stt0, r0 = H.call(rule.apply)
+            if stt0 == "raise":
+                raise sym.PathEnd()
+            pos = H.mkq(c, "AngularPosition", "theta_at_the_second_call")
+            tgt.angular_position = pos
+            hl = z3.Select(st["hlen_Tl"], 0)
+            st.havoc(("Tl",), tag="second_call")
+            c.assume(z3.And(z3.Not(z3.Select(st["Tl_none"], 0)), env.fac("Torque", z3.Select(st["Tl_unit"], 0)) > 0))
+            c.assume(z3.Select(st["hlen_Tl"], 0) == hl)
         old = st.snapshot()
         stt, r = H.call(rule.apply)
         if stt == "raise":
@@ -475,6 +510,8 @@ def job_start_proportional(n, load_recorded):
                     L.eq(L.mul(sym.term_of(r) - Dm, TT), (1 - Dm) * TH), props=("C15",))
         O.prove("SP:modifies-nothing", not st.changed_since(old), props=("C15", "C14"))
     tag = "load-recorded" if load_recorded else "no-history"
+    if second_call:
+        tag += ",second-call-in-another-state"
     return Job(f"control.StartProportionalToAngularPosition.apply[n={n},{tag}]", body, ("C15", "C14"),
                functions=["gearpy.motor_control.rules.start_proportional_to_angular_position.StartProportionalToAngularPosition.apply",
                           "gearpy.motor_control.rules.utils._compute_pwm_min"],
@@ -501,13 +538,9 @@ def job_stop(sensor, opname):
         SM = importlib.import_module(modname)
         reading = H.mkq(c, kind, "reading")
         thr = H.mkq(c, kind, "threshold")
-        tgt = Target(**{attr: reading})
-        sens = object.__new__(getattr(SM, sensor))
-        sens.__dict__[f"_{sensor}__target"] = tgt
-        sc = object.__new__(SC.StopCondition)
-        sc._StopCondition__sensor = sens
-        sc._StopCondition__threshold = thr
-        sc._StopCondition__operator = getattr(OP, opname)()
+        tgt = Target(**{attr: reading}, electric_current_is_computable=True, _classes=("RotatingObject", "MotorBase", "DCMotor"))
+        sens = construct(O, getattr(SM, sensor), ("C16", "C15"), target=tgt)
+        sc = construct(O, SC.StopCondition, ("C16",), sensor=sens, threshold=thr, operator=getattr(OP, opname)())
         st, r = H.call(sens.get_value)
         O.prove("sensor:get_value-is-the-live-attribute-object", st == "ok" and r is reading, props=("C16", "C15"))
         st, r = H.call(sc.check_condition)
@@ -541,6 +574,8 @@ def all_jobs(exact_tables=None):
     jobs = [job_apply_rules(m) for m in range(0, 7)]
     jobs += [job_add_rule(), job_timer(), job_constant_pwm(), job_start_limit_current()]
     jobs += [job_reach(n) for n in (2, 3, 4, 5, 6, 7, 8)]                      # n > 5: thorough tier only
+    jobs += [job_reach(n, second_call=True) for n in (2, 3)]
+    jobs += [job_start_proportional(2, lr, second_call=True) for lr in (False, True)]
     jobs += [job_start_proportional(n, lr) for n in (2, 3, 4, 5, 6) for lr in (False, True)]   # n > 4: thorough tier only
     jobs += [job_stop(sn, op) for sn in SENSORS for op in OPS]
     return jobs
